@@ -38,25 +38,28 @@ type step struct {
 type variant struct {
 	Name string
 	SDL  string
+	Rel  string // name of the relation field on the parent side ("" = the default of the mode)
 }
 
 func variants(oneToOne bool) []variant {
 	if oneToOne {
 		base := "type Author {\n name: String%s\n book: Book\n}\ntype Book {\n name: String\n rating: Int%s\n author: Author @primary%s\n}"
 		return []variant{
-			{"none", fmt.Sprintf(base, "", "", "")},
-			{"fk-unique", fmt.Sprintf(base, "", "", " @index(unique: true)")},
-			{"rating", fmt.Sprintf(base, "", " @index", "")},
-			{"all", fmt.Sprintf(base, " @index", " @index", " @index(unique: true)")},
+			{"none", fmt.Sprintf(base, "", "", ""), ""},
+			{"fk-unique", fmt.Sprintf(base, "", "", " @index(unique: true)"), ""},
+			{"rating", fmt.Sprintf(base, "", " @index", ""), ""},
+			{"all", fmt.Sprintf(base, " @index", " @index", " @index(unique: true)"), ""},
+			// both halves of the relation carry the same field name
+			{"same-field-name", "type Author {\n name: String\n author: Book\n}\ntype Book {\n name: String\n rating: Int\n author: Author @primary\n}", "author"},
 		}
 	}
 	base := "type Author {\n name: String%s\n books: [Book]\n}\ntype Book {\n name: String\n rating: Int%s\n author: Author%s\n}"
 	return []variant{
-		{"none", fmt.Sprintf(base, "", "", "")},
-		{"fk", fmt.Sprintf(base, "", "", " @index")},
-		{"rating", fmt.Sprintf(base, "", " @index", "")},
-		{"name", fmt.Sprintf(base, " @index", "", "")},
-		{"all", fmt.Sprintf(base, " @index", " @index", " @index")},
+		{"none", fmt.Sprintf(base, "", "", ""), ""},
+		{"fk", fmt.Sprintf(base, "", "", " @index"), ""},
+		{"rating", fmt.Sprintf(base, "", " @index", ""), ""},
+		{"name", fmt.Sprintf(base, " @index", "", ""), ""},
+		{"all", fmt.Sprintf(base, " @index", " @index", " @index"), ""},
 	}
 }
 
@@ -160,6 +163,10 @@ func main() {
 		nb++
 		vs := variants(*oneToOne)
 		for _, v := range []variant{vs[0], vs[1+bi%(len(vs)-1)]} {
+			rel := rel
+			if v.Rel != "" {
+				rel = v.Rel
+			}
 			n, err := cluster.NewNode(ctx, "rel", cluster.Options{})
 			if err != nil {
 				herr = append(herr, err.Error())
